@@ -89,3 +89,44 @@ def table_json(table):
 def value_of(table, rows, null):
     v = table[rows]
     return Fraction(null) if isinstance(v, str) else Fraction(v)
+
+
+def genb_table(exprs, n_units, table):
+    """the table of a case per ASSIGNMENT VECTOR, in the vocabulary of the translated skeleton (lean/GenB via genbdriver): what evaluating
+    the coalition does — returns a value, raises a class, or emits a warning category (RuntimeWarning / UserWarning are emitted by the
+    table utility with warnings.warn; it would then return NaN, rendered as 0)"""
+    import spec
+    out = []
+    for a in spec.assignments(n_units):
+        v = table[rows_present(exprs, a)]
+        if isinstance(v, str):
+            if v in ("RuntimeWarning", "UserWarning"):
+                out.append([list(a), "warn", v, "0"])
+            else:
+                out.append([list(a), "exc", ("KeyError" if v == "Other" else v), "0"])
+        else:
+            out.append([list(a), "val", "", str(Fraction(v))])
+    return out
+
+
+def check_translated_brute(ctx, case, exprs, n_units, table, null, res, scale):
+    """the skeleton of _shapley_bruteforce TRANSLATED from this tree's source, run on the case's utility table, against what the implementation
+    returned (`res`: list of floats, or "Other" when an uncaught class propagated).  A disagreement means the translator / Ds.Np misrepresent
+    the code (no failing input of the property: the implementation is compared with the definition elsewhere)."""
+    if ctx.genbdriver is None:
+        return
+    ans = ctx.genb({"n": n_units, "null": str(Fraction(null)), "table": genb_table(exprs, n_units, table)})
+    ctx.dist["translated_skeleton_runs"] += 1
+    bad = None
+    if ans is None or ("ok" not in ans and "raised" not in ans):
+        bad = "could not be run"
+    elif "raised" in ans:
+        if res != "Other":
+            bad = "raised %s where the implementation returned scores" % ans["raised"]
+    elif res == "Other" or isinstance(res, str):
+        bad = "returned scores where the implementation raised"
+    elif not ctx.vec_close(res, [Fraction(x) for x in ans["ok"]], scale):
+        bad = "returned other scores than the implementation"
+    if bad:
+        ctx.mismatch("the skeleton translated from the source (harness/translate_skel.py -> lean/GenB) %s" % bad, case, impl=res, model=ans,
+                     failing_input=False, broken="corr:GenB.shapley_bruteforce (translator / Ds.Np)")
